@@ -155,7 +155,15 @@ TABLE = [
 ]
 
 # rules switched on per function with rules=a,b in the //@fn directive
+_ARGS = r'\((?:[^()]|\((?:[^()]|\([^()]*\))*\))*\)'
 OPTIONAL = {
+    # R15: in a function returning Result<_, mla::Error>, `IOCALL?` converts the io::Error with `From<io::Error> for Error`
+    # (errors.rs: Self::IOError(error)). Verus gives `?` no specification for a non-identity conversion, so the conversion is
+    # written out: IOCALL.map_err(verr_from_io)?  -- this is the definition of `?`.
+    'qio': [
+        ('R15', 'vio_*(..)? -> vio_*(..).map_err(verr_from_io)?', re.compile(r'(\bvio_\w+' + _ARGS + r')\s*\?'), r'\1.map_err(verr_from_io)?'),
+        ('R15', '.seek/.read/.flush(..)? -> .map_err(verr_from_io)?', re.compile(r'(\.(?:seek|read|flush)' + _ARGS + r')\s*\?'), r'\1.map_err(verr_from_io)?'),
+    ],
 }
 
 
